@@ -399,7 +399,12 @@ func (c *codegen) analyzeRefl(name string, fd *ast.FuncDecl) *reflInfo {
 // cfgArg checks the configuration argument of a reflective helper and
 // returns its variable; all names the helper touches must be int fields.
 func (c *codegen) cfgArg(ri *reflInfo, call *ast.CallExpr) *varInfo {
-	id, ok := call.Args[0].(*ast.Ident)
+	arg := call.Args[0]
+	if u, isAddr := arg.(*ast.UnaryExpr); isAddr && u.Op == token.AND {
+		// &x of a struct variable x modelled by value: the helper reads / writes the fields of x
+		arg = u.X
+	}
+	id, ok := arg.(*ast.Ident)
 	if !ok {
 		c.fail(call, "argument %s of %s (only the receiver or a local struct variable)", c.src(call.Args[0]), ri.name)
 	}
@@ -537,8 +542,22 @@ func (c *codegen) computeMutates() {
 				for _, f := range p {
 					nt := ""
 					for _, sf := range c.structs[t] {
-						if sf.name == f {
+						// a named field, or an embedded struct selected by its type name
+						if sf.name == f || (sf.name == "" && sf.typ == f) {
 							nt = sf.typ
+						}
+					}
+					if nt == "" {
+						// a field promoted from an embedded struct
+						for _, sf := range c.structs[t] {
+							if sf.name != "" {
+								continue
+							}
+							for _, pf := range c.structs[sf.typ] {
+								if pf.name == f || (pf.name == "" && pf.typ == f) {
+									nt = pf.typ
+								}
+							}
 						}
 					}
 					t = nt
@@ -595,18 +614,24 @@ func (c *codegen) ensure(k fnKey, at ast.Node) {
 		c.fail(at, "recursive call of %s", fnName(k))
 	}
 	c.busy[k] = true
-	saved, savedPhase := c.cur, c.phase2
+	saved, savedPhase, savedPhase3 := c.cur, c.phase2, c.phase3
 	var out fnOut
-	if c.white2Set[k] {
+	if c.white3Set[k] {
+		if !c.phase3 {
+			c.fail(at, "internal error: function %s of the third part needed by an earlier part", fnName(k))
+		}
+		out = c.function2(k)
+	} else if c.white2Set[k] {
 		if !c.phase2 {
 			c.fail(at, "internal error: function %s of the second part needed by the first part", fnName(k))
 		}
+		c.phase3 = false
 		out = c.function2(k)
 	} else {
-		c.phase2 = false
+		c.phase2, c.phase3 = false, false
 		out = c.function(k)
 	}
-	c.cur, c.phase2 = saved, savedPhase
+	c.cur, c.phase2, c.phase3 = saved, savedPhase, savedPhase3
 	c.busy[k] = false
 	c.done[k] = true
 	c.outs = append(c.outs, out)
@@ -745,7 +770,7 @@ func genCode(p *pkgInfo, repo, outFile string) {
 	c := &codegen{p: p, fns: p.funcs(), structs: p.structs(), constTypes: map[string]ast.Expr{},
 		whiteSet: map[fnKey]bool{}, mutates: map[fnKey]bool{}, refl: map[string]*reflInfo{},
 		structSeen: map[string]bool{}, done: map[fnKey]bool{}, busy: map[fnKey]bool{},
-		structPhase: map[string]int{}, sigs: map[fnKey]*fnSig{}, white2Set: map[fnKey]bool{}}
+		structPhase: map[string]int{}, sigs: map[fnKey]*fnSig{}, white2Set: map[fnKey]bool{}, white3Set: map[fnKey]bool{}}
 	for _, f := range p.files {
 		for _, d := range f.Decls {
 			if gd, ok := d.(*ast.GenDecl); ok && gd.Tok == token.CONST {
